@@ -151,3 +151,61 @@ def a_delivered_telegram_is_marked_data_secure_exactly_when_it_arrived_secured(h
     for t in list(ghost("queue")) + list(ghost("mgmt")):
         assert t.data_secure is secured
         assert not isinstance(t.payload, _SecureAPDU)
+
+
+# ------------------------------------------------------------------ the sender secures the frame that goes onto the wire
+
+import asyncio as _asyncio  # noqa: E402
+
+from contracts import c14_cemi_routing as _c14  # noqa: E402
+from contracts.cemi_common import AnyAPCI as _AnyAPCI  # noqa: E402
+from contracts.world import FakeTimeout as _FakeTimeout, World as _World  # noqa: E402
+from pyvc.api import Const as _Const, Int as _Int, Obj as _Obj, run as _run  # noqa: E402
+from xknx.cemi.cemi_handler import CEMIHandler as _CEMIHandler  # noqa: E402
+from xknx.core.connection_manager import ConnectionManager as _CM  # noqa: E402
+from xknx.exceptions import CommunicationError as _CommErr, ConfirmationError as _ConfErr, ConversionError as _ConvErr  # noqa: E402
+from xknx.telegram import Telegram as _Telegram  # noqa: E402
+from xknx.telegram.address import GroupAddress as _GA, IndividualAddress as _IA  # noqa: E402
+
+
+class _RecordingDataSecure:
+    """DataSecure.outgoing_cemi by contract: secures the frame *as it is given* - source and destination
+    address, flags and TPCI of that frame go into the MAC (lemmas above)."""
+
+    def outgoing_cemi(self, cemi_data):
+        ghost("secured").append((cemi_data.src_addr.raw, cemi_data.dst_addr.raw))
+        return cemi_data
+
+
+class _RecordingInterface:
+    async def send_cemi(self, cemi):
+        ghost("wire").append((cemi.data.src_addr.raw, cemi.data.dst_addr.raw))
+
+
+_SECURE_SENDER = _Obj(
+    _CEMIHandler,
+    data_secure=_Const(_RecordingDataSecure()),
+    _l_data_confirmation_event=_Const(_c14._Event()),
+    xknx=_Obj(
+        _World,
+        current_address=_Obj(_IA, raw=_Int(0, 0xFFFF)),
+        knxip_interface=_Const(_RecordingInterface()),
+        connection_manager=_Obj(_CM, cemi_count_outgoing=_Int(0, 10**9), cemi_count_outgoing_error=_Int(0, 10**9)),
+    ),
+)
+
+
+@lemma("C15", params=dict(h=_SECURE_SENDER, dst=_Obj(_GA, raw=_Int(0, 0xFFFF)), src=_Int(0, 0xFFFF), enc=Bytes(min_len=2, max_len=20)), stubs=[(_asyncio, "timeout", _FakeTimeout)])
+def the_frame_is_secured_with_the_addresses_it_leaves_with(h, dst, src, enc):
+    """CEMIHandler.send_telegram with Data Secure: the frame handed to outgoing_cemi carries the source
+    address the frame has on the wire (the interface's own address when the telegram names none) - the
+    receiver builds its MAC input from the wire, so securing first and filling in the source afterwards
+    would make every receiver discard the frame."""
+    t = _Telegram(destination_address=dst, source_address=_IA(src), payload=_AnyAPCI(enc=enc))
+    try:
+        _run(h.send_telegram(t))
+    except (_ConfErr, _CommErr, _ConvErr):
+        pass
+    want = h.xknx.current_address.raw if src == 0 else src
+    assert ghost("secured") == [(want, dst.raw)]
+    assert ghost("wire") == [(want, dst.raw)]
